@@ -18,7 +18,7 @@ NEGATIVE = {  # Legacy deviation -> universe in which TLC must find its countere
     "C05": [("PrefixAfterUnique", "collide"), ("NoAnyComparable", "reserved")],
     "C06": [("PrefixOnDot", "dotlocal")],
     "C08": [("LateDot", "history")],
-    "C19": [("CDot", "cgo")],
+    "C19": [('CDot", "LateDot', "cgo")],   # the pinned-tree shape of isDotImport: hints only, "C" not exempt
 }
 
 
